@@ -11,8 +11,36 @@ From V Require Import Model.Val Model.SvgTypes Model.SvgDraw Model.SvgInst Model
   Proofs.SvgDrawP Proofs.SvgInstP Proofs.SvgTextP.
 Open Scope N_scope.
 
+(* ---- a concrete, non-trivial instance used by the ..._hyps_sat examples below: a "Class Diagram Blank"
+        diagram with a labelled Class box (two features, two context ids, gradient fill override), a Class
+        box hidden below a collapsed parent, and a Generalization edge (marker-end in STYLES, one label,
+        stroke override) *)
+Definition ex_dc : str := [67;108;97;115;115;32;68;105;97;103;114;97;109;32;66;108;97;110;107].   (* Class Diagram Blank *)
+Definition s_Class : str := [67;108;97;115;115].
+Definition s_Generalization : str := [71;101;110;101;114;97;108;105;122;97;116;105;111;110].
+Definition ex_kc : kind * str := (KBox, s_Class).
+Definition ex_sh : bool * nat * nat := (true, 0, 2)%nat.
+Definition ex_ov : list (str * sval) := [(s_fill, SvGrad [h1; h2])].
+Definition ex_box : jobj := mkO KBox (Some [98;49]) s_Class [[99;50]; [99;49]] ex_ov true 0%nat 2%nat.
+Definition ex_hid : jobj := mkO KBox (Some [98;50]) s_Class [] [] false 0%nat 0%nat.
+Definition ex_edge : jobj := mkO KEdge (Some [101;49]) s_Generalization [] [(s_stroke, SvRGB h2)] false 1%nat 0%nat.
+Definition ex_els : list delem :=
+  [ mkE ex_box false [(false, false)] [];
+    mkE ex_hid false [(false, false); (false, true); (true, false)] [];
+    mkE ex_edge false [] [(false, [(false, false)]); (false, [])] ].
+Ltac in_list := vm_compute; repeat (first [left; reflexivity | right]).
+(* membership in a long regenerated table: compute the index with a boolean test, let the VM check the entry *)
+Fixpoint find_idx {A} (p : A -> bool) (l : list A) : nat :=
+  match l with [] => O | x :: r => if p x then O else S (find_idx p r) end.
+Ltac in_by_idx p := match goal with |- In ?x ?l =>
+  apply (nth_error_In l (find_idx p l)); vm_compute; reflexivity end.
+Definition kc_is (kc y : kind * str) : bool := Z.eqb (kind_code (fst y)) (kind_code (fst kc)) && seqb (snd y) (snd kc).
+Ltac is_some_by_vm := match goal with |- exists x, ?t = Some x =>
+  let E := fresh in destruct t as [x|] eqn:E; [now exists x|vm_compute in E; discriminate E] end.
+
 (* 1. viewBox = rounded viewport plus the fixed margin: 10 on every side, taken from the source
       (DiagramMetadata.__init__), rounding int(v + 1/2) taken from _json_enc._intround. *)
+(* by definition of viewbox_with and of the regenerated constants PAD_POS_X/Y = -10, PAD_SIZE_X/Y = 20 *)
 Theorem viewbox_spec : forall x y w h,
   viewbox (Some (x, y, w, h)) = ((intround x - 10)%Z, (intround y - 10)%Z, (intround w + 20)%Z, (intround h + 20)%Z)
   /\ viewbox None = ((-10)%Z, (-10)%Z, 20%Z, 20%Z).
@@ -24,6 +52,9 @@ Theorem intround_is_rounding : forall q, (-(1#2) <= q)%Q ->
   (inject_Z (intround q) <= q + (1#2) /\ q - (1#2) < inject_Z (intround q))%Q.
 Proof. exact intround_half_nonneg. Qed.
 Print Assumptions intround_is_rounding.
+Example intround_is_rounding_hyps_sat :   (* 7/3 rounds to 2; the boundary value -1/2 rounds to 0 *)
+  (-(1#2) <= 7#3)%Q /\ intround (7#3) = 2%Z /\ (-(1#2) <= -(1#2))%Q /\ intround (-(1#2)) = 0%Z.
+Proof. repeat split; apply Qle_bool_imp_le; reflexivity. Qed.
 (* 1b. ... and for every coordinate (negative ones are truncated towards zero after the shift) it is
        less than 3/2 away, so the margin of 10 always keeps the viewport inside the viewBox *)
 Theorem intround_error_bound : forall q,
@@ -42,21 +73,42 @@ Proof.
   intros T dc els st H. rewrite (draw_all_groups T dc _ st H). unfold encode_contents. now rewrite map_map.
 Qed.
 Print Assumptions one_group_per_visible.
+Example one_group_per_visible_hyps_sat :   (* the three-element diagram above draws; two groups result *)
+  exists st, draw_all TBL ex_dc (encode_contents ex_els) = Some st.
+Proof. is_some_by_vm. Qed.
+Example one_group_per_visible_instance :
+  option_map (fun st => map fst (d_groups st)) (draw_all TBL ex_dc (encode_contents ex_els)) = Some [Some [98;49]; Some [101;49]].
+Proof. vm_compute. reflexivity. Qed.
 
+(* by definition of group_class *)
 Theorem group_carries_class : forall o,
   exists rest, group_class o = kind_word (o_kind o) ++ 32 :: o_class o ++ rest.
 Proof. exact group_class_shape. Qed.
 Print Assumptions group_carries_class.
 
+(* by definition of encode_contents (map e_obj after filtering on elem_hidden), read element-wise *)
 Theorem hidden_absent : forall els o,
   In o (encode_contents els) <-> exists e, In e els /\ elem_hidden e = false /\ e_obj e = o.
 Proof. exact encode_in. Qed.
 Print Assumptions hidden_absent.
+Example hidden_absent_hyps_sat :   (* both sides of the equivalence hold for the edge of ex_els; the hidden box is absent *)
+  In ex_edge (encode_contents ex_els)
+  /\ (exists e, In e ex_els /\ elem_hidden e = false /\ e_obj e = ex_edge)
+  /\ ~ In ex_hid (encode_contents ex_els).
+Proof.
+  split; [right; left; reflexivity|]. split.
+  - eexists. split; [right; right; left; reflexivity|]. split; reflexivity.
+  - intros [H|[H|[]]]; discriminate H.
+Qed.
 
 Theorem hidden_below_hidden_or_collapsed : forall e h c rest1 rest2,
   e_anc e = rest1 ++ (h, c) :: rest2 -> h || c = true -> elem_hidden e = true.
 Proof. exact hidden_by_ancestor. Qed.
 Print Assumptions hidden_below_hidden_or_collapsed.
+Example hidden_below_hidden_or_collapsed_hyps_sat :   (* the second element of ex_els: its grandparent is collapsed *)
+  e_anc (mkE ex_hid false [(false, false); (false, true); (true, false)] []) = [(false, false)] ++ (false, true) :: [(true, false)]
+  /\ false || true = true.
+Proof. split; reflexivity. Qed.
 
 (* 3. reference closure over the regenerated tables — finite domain, the bound is the table:
       every diagram class of STYLES (and none), every element kind, every style class STYLES knows for
@@ -70,12 +122,23 @@ Theorem refs_closed_all : forall dc kc sh ov,
   closed1 dc (mk_obj kc sh ov) = true.
 Proof. exact refs_closed_all_lemma. Qed.
 Print Assumptions refs_closed_all.
+Example refs_closed_all_hyps_sat :   (* labelled Class box with two features and a gradient fill override in a Class Diagram Blank *)
+  In ex_dc diagram_classes /\ In ex_kc (kinds_classes ex_dc) /\ In ex_sh (shapes_of (fst ex_kc)) /\ In ex_ov override_menu.
+Proof. split; [in_by_idx (seqb ex_dc)|]. split; [in_by_idx (kc_is ex_kc)|]. split; in_list. Qed.
 
 Theorem refs_closed_all_defined : forall dc kc sh ov st,
   In dc diagram_classes -> In kc (kinds_classes dc) -> In sh (shapes_of (fst kc)) -> In ov override_menu ->
   draw_obj TBL dc st0 (mk_obj kc sh ov) = Some st -> incl (doc_refs TBL st) (doc_defs TBL st).
 Proof. exact refs_closed_all_incl. Qed.
 Print Assumptions refs_closed_all_defined.
+Example refs_closed_all_defined_hyps_sat :   (* the same combination, and drawing it yields a state *)
+  exists st, In ex_dc diagram_classes /\ In ex_kc (kinds_classes ex_dc) /\ In ex_sh (shapes_of (fst ex_kc)) /\ In ex_ov override_menu
+             /\ draw_obj TBL ex_dc st0 (mk_obj ex_kc ex_sh ex_ov) = Some st.
+Proof.
+  assert (exists st, draw_obj TBL ex_dc st0 (mk_obj ex_kc ex_sh ex_ov) = Some st) as [st E] by is_some_by_vm.
+  exists st. destruct refs_closed_all_hyps_sat as (A & B & C & D).
+  split; [exact A|]. split; [exact B|]. split; [exact C|]. split; [exact D|exact E].
+Qed.
 
 (* 3'. whole drawings: ANY number of elements of that domain (ids and contexts arbitrary), in any order,
        hidden ones included, for every diagram class of the tables: if drawing does not raise, every
@@ -88,6 +151,20 @@ Theorem diagram_refs_closed : forall dc els st,
   draw_all TBL dc (encode_contents els) = Some st -> incl (doc_refs TBL st) (doc_defs TBL st).
 Proof. exact diagram_refs_closed_lemma. Qed.
 Print Assumptions diagram_refs_closed.
+Example diagram_refs_closed_hyps_sat :   (* ex_els: every element (the hidden one included) is in the domain, and the diagram draws *)
+  exists st, In ex_dc diagram_classes /\ Forall (fun e => in_domain ex_dc (e_obj e)) ex_els
+             /\ draw_all TBL ex_dc (encode_contents ex_els) = Some st.
+Proof.
+  destruct one_group_per_visible_hyps_sat as [st E]. exists st.
+  destruct refs_closed_all_hyps_sat as (Hdc & Hkc & Hsh & Hov). split; [exact Hdc|]. split; [|exact E].
+  constructor; [|constructor; [|constructor; [|constructor]]].
+  - exists ex_kc, ex_sh, ex_ov.
+    split; [exact Hkc|]. split; [exact Hsh|]. split; [exact Hov|]. repeat split.
+  - exists ex_kc, (false, 0, 0)%nat, [].
+    split; [exact Hkc|]. split; [in_list|]. split; [in_list|]. repeat split.
+  - exists (KEdge, s_Generalization), (false, 1, 0)%nat, [(s_stroke, SvRGB h2)].
+    split; [in_by_idx (kc_is (KEdge, s_Generalization))|]. split; [in_list|]. split; [in_list|]. repeat split.
+Qed.
 
 (* 3''. the same for arbitrary tables and arbitrary elements, from the two local conditions *)
 Theorem drawing_closed_from_local : forall (T : tables) dc objs st,
@@ -95,6 +172,13 @@ Theorem drawing_closed_from_local : forall (T : tables) dc objs st,
   incl (doc_refs T st) (doc_defs T st).
 Proof. exact draw_all_closed. Qed.
 Print Assumptions drawing_closed_from_local.
+Example drawing_closed_from_local_hyps_sat :   (* the regenerated tables and the visible objects of ex_els *)
+  exists st, tab_closed TBL /\ forallb (obj_closed TBL ex_dc) (encode_contents ex_els) = true
+             /\ draw_all TBL ex_dc (encode_contents ex_els) = Some st.
+Proof.
+  destruct one_group_per_visible_hyps_sat as [st E]. exists st.
+  split; [apply tab_closed_from_rows; exact rows_closed_true|]. split; [vm_compute; reflexivity|exact E].
+Qed.
 
 (* 3a. the symbol registry itself: the element a factory returns carries the registry key as id, and
        every reference inside a symbol is defined inside it or inside a declared dependency *)
@@ -103,6 +187,13 @@ Theorem symbol_registry_closed : forall r, In r SYMBOLS ->
   incl (sy_refs r) (sy_ids r ++ flat_map (row_ids TBL) (sy_deps r)).
 Proof. exact symbol_registry_closed_lemma. Qed.
 Print Assumptions symbol_registry_closed.
+Example symbol_registry_closed_hyps_sat :   (* the first registered symbol that contains a reference *)
+  exists r, In r SYMBOLS /\ sy_refs r <> [].
+Proof.
+  destruct (find (fun r => match sy_refs r with [] => false | _ => true end) SYMBOLS) as [r|] eqn:E;
+    [|vm_compute in E; discriminate E].
+  apply find_some in E as [Hin Hr]. exists r. split; [exact Hin|]. intro H. rewrite H in Hr. discriminate Hr.
+Qed.
 
 (* 3b. REFUTED parts of the full statement (faithful model = current code; both are listed in
        known_findings.d/C18.json):
@@ -136,6 +227,12 @@ Theorem wrap_lines_fit : forall (ext : str -> Z) (width : Z) (ws : list str),
   Forall (fun l => (exists w, l = [w]) \/ (ext (joinsp l) <=? width)%Z = true) (wrapw ext width [] ws).
 Proof. intros. apply wrapw_fits. now left. Qed.
 Print Assumptions wrap_lines_fit.
+(* no hypotheses; [ext] is universally quantified.  One concrete extent function (number of characters),
+   width 5, the words "ab" "c" "defghij" "k": the over-long word sits alone on its line *)
+Example wrap_instance :
+  wrapw (fun s => Z.of_nat (length s)) 5%Z [] [[97;98]; [99]; [100;101;102;103;104;105;106]; [107]]
+  = [[[97;98]; [99]]; [[100;101;102;103;104;105;106]]; [[107]]].
+Proof. reflexivity. Qed.
 
 (* (b) escaping: what the XML writer emits for character data / attribute values contains no '<', '>'
       (and no double quote in attributes), and a reader gets the original string back — markup-significant
@@ -144,11 +241,17 @@ Theorem text_escaped : forall s,
   unescape (escape_text s) = s /\ forall c, In c (escape_text s) -> c <> LT /\ c <> GT.
 Proof. intro s. split; [apply unescape_escape_text|apply escape_text_no_markup]. Qed.
 Print Assumptions text_escaped.
+Example text_escaped_hyps_sat :   (* a, LT, AMP, GT, QUOT : the inner hypothesis In c (escape_text s) holds e.g. for '&' *)
+  escape_text [97; LT; AMP; GT; QUOT] = [97] ++ e_lt ++ e_amp ++ e_gt ++ [QUOT] /\ In AMP (escape_text [97; LT; AMP; GT; QUOT]).
+Proof. split; [reflexivity|]. right; left; reflexivity. Qed.
 
 Theorem attr_escaped : forall s,
   unescape (escape_attr s) = s /\ forall c, In c (escape_attr s) -> c <> LT /\ c <> GT /\ c <> QUOT.
 Proof. intro s. split; [apply unescape_escape_attr|apply escape_attr_no_markup]. Qed.
 Print Assumptions attr_escaped.
+Example attr_escaped_hyps_sat :   (* a, LT, QUOT, newline : the inner hypothesis In c (escape_attr s) holds e.g. for '&' *)
+  escape_attr [97; LT; QUOT; 10] = [97] ++ e_lt ++ e_quot ++ e_nl /\ In AMP (escape_attr [97; LT; QUOT; 10]).
+Proof. split; [reflexivity|]. right; left; reflexivity. Qed.
 
 (* (c) together: the <tspan> contents of a label read back as the wrapped lines *)
 Theorem label_escaped : forall (ext : str -> Z) (width : Z) (ws : list str),
